@@ -23,6 +23,7 @@ from mc.checks import rules_common as R
 
 PROPERTY = "C16"
 LEVEL = "exploration"
+DETERMINISM_CASES = 1
 RULE = ("cases = every budget over feature subsets (size <= 1 quick / all 64 thorough) x 2 rule modes x 2 transform settings x 2 supplemental settings, plus 4 legacy-CSV "
         "budgets; per budget: 1 `up`, one `explain <merchant>` per merchant, 8 probes x (`explain <description> --amount`, `up` on the twin budget), 1 `discover`. "
         "non-trivial = budgets with >= 1 feature or non-default mode/transform/supplemental; budgets distinct by construction")
